@@ -255,10 +255,41 @@ func init() {
 				return []Obligation{anchorMissing("MACROEXP.bound", "Runtime.MaxMacroExpansions")}
 			}
 			var obs []Obligation
-			for _, spec := range []struct{ fname, via string }{
-				{"lisp.(*LEnv).eval", "lisp.LEnv.evalSExpr"},
-				{"lisp.builtinMacroExpand", "lisp.macroExpand1"},
-			} {
+			type loopSpec struct{ fname, via string }
+			specs := []loopSpec{{"lisp.(*LEnv).eval", "lisp.LEnv.evalSExpr"}}
+			// the macroexpand builtin: whichever function calls macroExpand1 from inside a loop (the
+			// loop may live in a helper shared with macroexpand-1)
+			if exp1 := c.LookupPkgFunc("lisp.macroExpand1"); exp1 != nil {
+				sites, _ := c.CallsTo(func(p string) bool { return rel(p) == "lisp" }, exp1)
+				seen := map[string]bool{}
+				n := 0
+				for _, st := range sites {
+					name := st.Unit.Name()
+					if seen[name] {
+						continue
+					}
+					seen[name] = true
+					fc := c.cfgOf(st.Unit, nil)
+					onCycle := false
+					for _, comp := range fc.cyclicSCCs(nil) {
+						for _, b := range comp {
+							for _, nd := range b.Nodes {
+								if nodeCalls(st.Unit.Pkg.TypesInfo, nd, exp1) != nil {
+									onCycle = true
+								}
+							}
+						}
+					}
+					if onCycle {
+						specs = append(specs, loopSpec{name, "lisp.macroExpand1"})
+						n++
+					}
+				}
+				if n == 0 {
+					specs = append(specs, loopSpec{"lisp.builtinMacroExpand", "lisp.macroExpand1"})
+				}
+			}
+			for _, spec := range specs {
 				fn, fd, pkg := c.LookupFunc(spec.fname)
 				if fn == nil {
 					obs = append(obs, anchorMissing("MACROEXP.bound", spec.fname))
